@@ -103,7 +103,7 @@ case "${1:-}" in
          fi
          python3 gen_gated.py || exit 3
          (cd h && go1.26.8 test -c -vet=off -overlay ../bin/ov_gate.json -o ../bin/verifb_gated.test ./tb) || exit 3
-         GOMAXPROCS=1 VERIF_EXEC_ONE="$(jq -r .violation.part "$2")|$(jq -c .violation.choices "$2")" exec bin/verifb_gated.test -test.run '^TestC20$' -test.timeout 0;;
+         GOMAXPROCS=1 VERIF_EXEC_ONE="$(jq -r .violation.part "$2")|$(jq -c ".violation.choices // []" "$2")" exec bin/verifb_gated.test -test.run '^TestC20$' -test.timeout 0;;
       C04) build_s; (cd h && go build -o ../bin/c04writer ./cmd/c04writer) || exit 3; exec bin/verifs replay "$2";;
       *) build_s; exec bin/verifs replay "$2";;
     esac;;
